@@ -63,6 +63,7 @@ class FunTerm:
         for st in body:
             if isinstance(st, ast.FunctionDef):
                 self.inline_funcs.setdefault(st.name, st)
+        self._mutated_names = _mutated_anywhere(body)
         r = self.block(body)
         if self._poisoned:
             return OPQ(self._poisoned)
@@ -155,6 +156,17 @@ class FunTerm:
                     targets = st.targets if isinstance(st, ast.Assign) else [st.target]
                     for t in targets:
                         self.assign(t, st.value)
+                    # aliasing: `a = b = {}` / `a = <tracked container b>` make two names for ONE mutable object; the
+                    # summariser tracks values per name, so when either name is mutated later both are given up
+                    names = [varname(t) for t in targets if varname(t) is not None and not isinstance(t, ast.Subscript)]
+                    src = varname(st.value) if isinstance(st.value, (ast.Name, ast.Attribute)) else None
+                    group = set(names) | ({src} if src is not None and src in self.env else set())
+                    mutable_value = isinstance(st.value, (ast.Dict, ast.List, ast.Set, ast.ListComp, ast.DictComp, ast.SetComp)) or \
+                        (isinstance(st.value, ast.Call) and txt(st.value.func) in ("dict", "list", "set", "defaultdict", "Counter")) or src is not None
+                    muts = getattr(self, "_mutated_names", set())
+                    if len(group) > 1 and mutable_value and (group & muts):
+                        for nm_ in group:
+                            self.env[nm_] = OPQ(f"{nm_} shares a mutable object with {sorted(group - {nm_})}")
             elif isinstance(st, ast.AugAssign):
                 self.augassign(st)
             elif isinstance(st, ast.Return):
@@ -232,6 +244,12 @@ class FunTerm:
                 el = self.tr(v.args[0])
                 if self.defdepth.get(nm, 0) < self.cur_depth():
                     self.contribute(nm, "dict", ("add", el, tm.ONE))
+                    return
+            if meth == "update" and len(v.args) == 1 and not v.keywords and nm in self.env and self.defdepth.get(nm, 0) == self.cur_depth():
+                # D.update(<pairs or dict>) at the level where D is defined: the entries of dict(<arg>) are stored into D
+                arg = tm.single_atom(self.tr(ast.Call(func=ast.Name(id="dict", ctx=ast.Load()), args=[v.args[0]], keywords=[])))
+                if arg is not None and arg[0] == "dictacc" and len(arg) == 2:
+                    self.materialise(nm, "dict", ("entries", arg[1]))
                     return
             if meth in astx.MUTATOR_METHODS and nm in self.env:
                 self.env[nm] = OPQ(f"{nm}.{meth}(...)")
@@ -601,6 +619,21 @@ class FunTerm:
         for f in self.frames:
             lv = max(lv, f.level + 1)
         return lv
+
+
+def _mutated_anywhere(body) -> set:
+    """names whose object is modified in place somewhere in body (element store, augmented element store, mutator call)"""
+    out = set()
+    for st in body:
+        for n in ast.walk(st):
+            if isinstance(n, (ast.Assign, ast.AugAssign, ast.Delete)):
+                for t in (n.targets if isinstance(n, (ast.Assign, ast.Delete)) else [n.target]):
+                    for e in (t.elts if isinstance(t, (ast.Tuple, ast.List)) else [t]):
+                        if isinstance(e, ast.Subscript) and varname(e.value):
+                            out.add(varname(e.value))
+            elif isinstance(n, ast.Call) and isinstance(n.func, ast.Attribute) and n.func.attr in astx.MUTATOR_METHODS and varname(n.func.value):
+                out.add(varname(n.func.value))
+    return out
 
 
 def _merge_exclusive(contribs):
